@@ -54,7 +54,13 @@ TDeleted ==
 GetOk(g) ==
   LET k == g[1] IN
   IF k \in 1..Len(Ev.alive) /\ Ev.ids[k] \in 1..Len(docs)
-  THEN Ev.alive[k] = g[2] /\ g[3] = Stored(docs[Ev.ids[k]])
+  THEN /\ Ev.alive[k] = g[2] /\ g[3] = Stored(docs[Ev.ids[k]])
+       \* the same document through to_named_doc (g[4]: per field the values in the order added) and through to_json
+       \* (g[5]: the string values of field t in the JSON text)
+       /\ (Len(g) >= 5 =>
+             /\ g[4] = Stored(docs[Ev.ids[k]])
+             /\ LET sd == Stored(docs[Ev.ids[k]]) IN
+                g[5] = (IF "t" \in DOMAIN sd THEN [i \in 1..Len(sd.t) |-> sd.t[i].v] ELSE <<>>))
   ELSE FALSE
 
 Layout(e) ==
